@@ -13,16 +13,12 @@ def judgeSet (cid : String) (o : Op) (hs : HState) (out : Out) : HState × Out :
   let what := o.args.getD 0 ""
   let v := toInt (o.args.getD 1 "0")
   let prev := kvInt ((o.first "set").getD []) "prev"
-  let st := hs.st
-  let (exp, st') : Int × Settings :=
-    match what with
-    | "la" => (st.la, { st with la := clampLa v })
-    | "debug" => (st.debug, { st with debug := v })
-    | "one" => (st.one, { st with one := v })
-    | "cost" => (st.cost, { st with cost := v })
-    | "rec" => (st.recov, { st with recov := v })
-    | "match" => (st.rmatch, { st with rmatch := v })
-    | _ => (0, st)
+  let kind : Option SetKind := match what with
+    | "la" => some .la | "debug" => some .debug | "one" => some .one | "cost" => some .cost
+    | "rec" => some .recov | "match" => some .rmatch | _ => none
+  let (exp, st') : Int × Settings := match kind with
+    | some k => hs.st.set k v
+    | none => (0, hs.st)
   ({ hs with st := st' }, out.v cid o.n "C15" "K" (prev == exp) s!"set {what} prev={prev} expected={exp}")
 
 def processCase (cfg : ParseCfg) (c : Case) : Array String := Id.run do
